@@ -135,6 +135,6 @@ EmitState == EmitActs # {} => PrintT(ToJson(StateRow))
 Row == IF ev'.a \in Observers
        THEN [h |-> hist, e |-> ev', r |-> ret', pn |-> pan']
        ELSE [h |-> hist, e |-> ev', r |-> ret', pn |-> pan',
-             t |-> Tree(m'), x |-> <<Len(m'.a), Len(m'.f), m'.c>>, dr |-> drift']
+             t |-> Tree(m'), x |-> <<Len(m'.a), Len(m'.f), m'.c>>, dr |-> drift', cn |-> canon']
 Emit == ev'.a \in EmitActs => PrintT(ToJson(Row))
 =============================================================================
